@@ -11,6 +11,7 @@ import NutsModel.Facts.C03
 import NutsProofs.Lemmas.C03
 import NutsProofs.Lemmas.C03Api
 import NutsProofs.Lemmas.C03FsList
+import NutsProofs.Lemmas.C03Ext
 import NutsProofs.Props.C03
 
 set_option linter.unusedSimpArgs false
@@ -238,6 +239,64 @@ theorem api_decrypt_200_only_by_key_id (s : Store) (r : ApiReq) (m : JweMsg) (k 
 example : apiDecryptJwe (fun _ => true) apiCfg "/k" { refs := [("did:a#1", ⟨"n1", "1"⟩)], backend := [("n1", 7)], nextKey := 8 }
     { flds := [("Message", .present)] } (.jwe "did:a#1" 7) = .plain 7 := by decide
 
+/-- **noninterference at the REST surface.** Two key stores that went through the same history and differ only in
+    key MATERIAL (same reference rows, same entry names) answer every sign_jws / sign_jwt request with the same status,
+    the same problem detail and the same protected header — the only difference is which key pair made the signature. -/
+theorem api_sign_response_independent_of_key_material (s t : Store) (h : SameButKeys s t) (ops : List Op) (r : ApiReq) :
+    (apiSignJws valid apiCfg keyDir (run valid s ops) r).noKey = (apiSignJws valid apiCfg keyDir (run valid t ops) r).noKey ∧
+    (apiSignJwt valid apiCfg keyDir (run valid s ops) r).noKey = (apiSignJwt valid apiCfg keyDir (run valid t ops) r).noKey := by
+  have hR := same_run valid h ops
+  have hk := same_getPrivateKey valid hR r.kid
+  refine ⟨?_, ?_⟩
+  · unfold apiSignJws
+    cases apiCfg.checks "SignJwsRequest" with
+    | none => rfl
+    | some cs =>
+      simp only
+      cases validateReq cs r with
+      | none => rfl
+      | some o =>
+        cases o with
+        | some m => rfl
+        | none =>
+          simp only
+          unfold signKey
+          cases hs : getPrivateKey valid (run valid s ops) r.kid <;> cases ht : getPrivateKey valid (run valid t ops) r.kid <;>
+            simp only [hs, ht, resErr] at hk
+          · injection hk with hk; subst hk
+            simp only [ApiResp.noKey, same_errDetail keyDir hR]
+          · cases hk
+          · cases hk
+          · cases storeSignJWSHeaders true (hput (dedup r.headers) "kid" (HVal.str r.kid)) r.kid <;> rfl
+  · unfold apiSignJwt
+    cases apiCfg.checks "SignJwtRequest" with
+    | none => rfl
+    | some cs =>
+      simp only
+      cases validateReq cs r with
+      | none => rfl
+      | some o =>
+        cases o with
+        | some m => rfl
+        | none =>
+          simp only
+          unfold signKey
+          cases hs : getPrivateKey valid (run valid s ops) r.kid <;> cases ht : getPrivateKey valid (run valid t ops) r.kid <;>
+            simp only [hs, ht, resErr] at hk
+          · injection hk with hk; subst hk
+            simp only [ApiResp.noKey, same_errDetail keyDir hR]
+          · cases hk
+          · cases hk
+          · cases storeSignJWTHeaders true [] r.kid <;> rfl
+
+/-- non-vacuity: same history, other key generator: same answer, other signing key -/
+example : SameButKeys {} { nextKey := 100 } ∧
+    apiSignJwt (fun _ => true) apiCfg "/k" (run (fun _ => true) {} [.new "n1" (some "did:a#1")])
+      { flds := [("Kid", .present), ("Claims", .present)], kid := "did:a#1" } = .token 0 [("typ", .str "JWT"), ("kid", .str "did:a#1")] ∧
+    apiSignJwt (fun _ => true) apiCfg "/k" (run (fun _ => true) { nextKey := 100 } [.new "n1" (some "did:a#1")])
+      { flds := [("Kid", .present), ("Claims", .present)], kid := "did:a#1" } = .token 100 [("typ", .str "JWT"), ("kid", .str "did:a#1")] :=
+  ⟨⟨rfl, rfl⟩, by decide, by decide⟩
+
 /-! ## DPoP proofs: the `jwk` header is ALWAYS the public key of the key that signs -/
 
 /-- `(*DPoP).Sign` derives the `jwk` header from the signing key and writes it into the headers UNCONDITIONALLY, at
@@ -314,5 +373,60 @@ theorem fs_list_separator_not_checked :
       fsListName ([97, 98] ++ et) et = some [97] ∧ fsListName (USCORE :: et) et = none ∧ fsListName et et = none := by decide
 
 example : fsListName (fsEntryFileName [107] [112]) [112] = some [107] := by decide
+
+/-! ## external secret-store backend: the request target of a key name -/
+
+/-- every SPI method of the external backend hands `url.PathEscape(name)` to the generated client, and every generated
+    request builder that takes a key puts the (once more escaped, path-located, simple-style) parameter behind `/secrets/` -/
+theorem fact_external_name_to_path :
+    C03.externalNameUses = ["GetPrivateKey:LookupSecretWithResponse:url.PathEscape(keyName)",
+      "PrivateKeyExists:LookupSecretWithResponse:url.PathEscape(keyName)", "SavePrivateKey:StoreSecretWithResponse:url.PathEscape(kid)",
+      "DeletePrivateKey:DeleteSecretWithResponse:url.PathEscape(keyName)"] ∧
+    C03.externalRequestPaths = ["NewDeleteSecretRequest:fmt.Sprintf(\"/secrets/%s\", pathParam0)",
+      "NewDeleteSecretRequest:style(\"simple\",false,\"key\",runtime.ParamLocationPath,key)", "NewHealthCheckRequest:fmt.Sprintf(\"/health\")",
+      "NewListKeysRequest:fmt.Sprintf(\"/secrets\")", "NewLookupSecretRequest:fmt.Sprintf(\"/secrets/%s\", pathParam0)",
+      "NewLookupSecretRequest:style(\"simple\",false,\"key\",runtime.ParamLocationPath,key)",
+      "NewStoreSecretRequestWithBody:fmt.Sprintf(\"/secrets/%s\", pathParam0)",
+      "NewStoreSecretRequestWithBody:style(\"simple\",false,\"key\",runtime.ParamLocationPath,key)"] := by decide
+
+/-- **external_target_confined.** For EVERY key name (bytes of a Go string) — whether or not `validateKID` would accept
+    it — the segment that stands for it on the wire contains no `/`, `?`, `#`, `\`, NUL: the request target is
+    `<base dir>secrets/<one segment>`; two different names never share a target; a server that unescapes the segment
+    twice gets the name back literally; and the segment is a dot segment (`.` / `..`, which reference resolution would
+    fold away) only if the NAME is `.` / `..` — exactly the two names the wrapper refuses literally. -/
+theorem external_target_confined (name : Bytes) (hn : ∀ c ∈ name, c < 256) :
+    (∀ b ∈ externalSegment name, targetSafe b = true) ∧
+    (∀ other : Bytes, (∀ c ∈ other, c < 256) → externalSegment other = externalSegment name → other = name) ∧
+    ((pathUnescape (externalSegment name)).bind pathUnescape = some name) ∧
+    (externalSegment name = [DOT] → name = [DOT]) ∧ (externalSegment name = [DOT, DOT] → name = [DOT, DOT]) ∧
+    (externalSegment name = [] → name = []) := by
+  have h1 := pathEscape_lt name hn
+  have hrt : (pathUnescape (externalSegment name)).bind pathUnescape = some name := by
+    unfold externalSegment
+    rw [pathUnescape_escape _ h1]
+    simp [pathUnescape_escape _ hn]
+  have hinj : ∀ other : Bytes, (∀ c ∈ other, c < 256) → externalSegment other = externalSegment name → other = name := by
+    intro other ho he
+    exact pathEscape_injective _ _ ho hn (pathEscape_injective _ _ (pathEscape_lt other ho) h1 he)
+  have hlit : ∀ lit : Bytes, (∀ c ∈ lit, c < 256) → externalSegment lit = lit → externalSegment name = lit → name = lit := by
+    intro lit hl hfix he
+    exact (hinj lit hl (by rw [hfix, he])).symm
+  refine ⟨pathEscape_safe _ h1, hinj, hrt, hlit [DOT] (by decide) (by decide), hlit [DOT, DOT] (by decide) (by decide),
+    hlit [] (by decide) (by decide)⟩
+
+/-- with the wrapper in front: a name `validateKID` accepts is neither `.` nor `..`, so its target is never folded -/
+theorem external_valid_name_not_dot_segment (name : Bytes) (hn : ∀ c ∈ name, c < 256)
+    (hv : validName? C03.kidPatternRx C03.validateKIDRefusedNames name = some true) :
+    externalSegment name ≠ [DOT] ∧ externalSegment name ≠ [DOT, DOT] ∧ externalSegment name ≠ [] := by
+  have hc := external_target_confined name hn
+  have hdots := fact_dot_names_refused
+  have hne : name ≠ [DOT] ∧ name ≠ [DOT, DOT] ∧ name ≠ [] := by
+    refine ⟨?_, ?_, ?_⟩ <;> (intro e; subst e; revert hv; decide)
+  exact ⟨fun e => hne.1 (hc.2.2.2.1 e), fun e => hne.2.1 (hc.2.2.2.2.1 e), fun e => hne.2.2 (hc.2.2.2.2.2 e)⟩
+
+example : validName? C03.kidPatternRx C03.validateKIDRefusedNames [46, 46, 35] = some true ∧ (∀ c ∈ [46, 46, 35], c < 256) := by decide
+
+example : externalTarget [47, 98, 97, 115, 101] [46, 46, 35] =
+    [47, 115, 101, 99, 114, 101, 116, 115, 47, 46, 46, 37, 50, 53, 50, 51] := by decide   -- "/base" + "..#" -> "/secrets/..%2523"
 
 end Nuts.C03.Props
